@@ -304,7 +304,16 @@ func (w *World) exec(i int, op Op) (ev Event) {
 			ev.Skipped = true
 			return
 		}
-		if op.W == 0 {
+		if op.W == 2 {
+			// the other public way to parse: into a blank URL through the Parser interface
+			p := w.P
+			if p == nil {
+				p = url.NewParser()
+			}
+			blank := p.NewUrl()
+			u, err := p.BasicParser(string(op.A), nil, blank, url.NoState)
+			mkURL(u, err, "parsed", -1)
+		} else if op.W == 0 {
 			u, err := w.parse(string(op.A))
 			mkURL(u, err, "parsed", -1)
 		} else {
